@@ -130,7 +130,7 @@ pub fn expand_faults(prog: &Program, tr: &Trace, pairs: bool, rng: &mut Rng) -> 
 
 pub fn run_prog(prop: &str, prog: Program, cs: u64, thorough: bool) -> (Program, Trace, Report) {
     let cfg = cfg_for(cs, thorough);
-    let tr = scenario::run_l1(&prog, cfg);
+    let tr = scenario::run(&prog, cfg);
     let mut rep = Report::default();
     {
         let ix = Index::build(&tr.events);
